@@ -36,6 +36,16 @@ def _root_attr(node, selfname):
     return None
 
 
+def _is_deep(node):
+    """self.a.b = .. / self.a[k] = .. / self.a.append(..): written *through* attribute a (a itself keeps its binding)."""
+    depth = 0
+    n = node
+    while isinstance(n, (ast.Attribute, ast.Subscript)):
+        depth += 1
+        n = n.value
+    return depth > 1
+
+
 def self_aliases(fi):
     """Local names that may denote the receiver (`x = self`, `x = self if .. else ..`)."""
     selfname = _self_name(fi)
@@ -84,11 +94,11 @@ def direct_effects(fi, model):
         for t in flat:
             r = _root_attr_any(t, aliases)
             if r is not None:
-                out.setdefault(r, []).append(n)
+                out.setdefault(r + ('*' if _is_deep(t) else ''), []).append(n)
         if isinstance(n, ast.Call) and isinstance(n.func, ast.Attribute) and n.func.attr in MUTATOR_METHODS:
             r = _root_attr_any(n.func.value, aliases)
             if r is not None:
-                out.setdefault(r, []).append(n)
+                out.setdefault(r + '*', []).append(n)
     return out
 
 
@@ -123,13 +133,13 @@ def receiver_effects(model):
             if selfname is None:
                 continue
             subclasses = [c.name for c in model.classes.values() if fi.cls in model.mro(c.name)]
-            for a in list(cur):
+            for a in [x.rstrip('*') for x in cur]:
                 for cn in subclasses:
                     for ci in model.mro(cn):
                         if a in ci.setters:
                             add |= eff.get(ci.setters[a].qualname, set())
                     if (cn, a) in prop_alias:
-                        add.add(prop_alias[(cn, a)])
+                        add.add(prop_alias[(cn, a)] + '*')      # written *through* (the attribute itself is not re-bound)
             aliases = self_aliases(fi)
             for n in ast.walk(fi.node):
                 if isinstance(n, ast.Call) and isinstance(n.func, ast.Attribute) and \
@@ -162,12 +172,22 @@ def mutating_call_oracle(model):
     names = mutating_method_names(model)
     eff = receiver_effects(model)
 
+    def _rebinds(attrs):
+        # starred = written through (kill what lies below the attribute, keep its binding): encoded as 'attr*'
+        return frozenset(attrs)
+
     def oracle(call, flow):
         m = call.func.attr
         recv = call.func.value
         if isinstance(recv, ast.Name) and recv.id == 'self' and flow.fi.cls is not None:
             callee = model.lookup_method(flow.fi.cls.name, m)
             if callee is not None:
-                return bool(eff.get(callee.qualname))
-        return m in names
+                e = eff.get(callee.qualname, ())
+                return (_rebinds(e) or True) if e else False
+        if m in names:
+            out = set()
+            for cand in model.methods_named(m):
+                out |= eff.get(cand.qualname, set())
+            return _rebinds(out) or True
+        return False
     return oracle
